@@ -41,3 +41,28 @@ Theorem C11_cross_degree_order_free A l2 l2' n1 :
   Permutation l2 l2' -> cross_degree A l2 n1 = cross_degree A l2' n1.
 Proof. exact (cross_degree_order_free A l2 l2' n1). Qed.
 Print Assumptions C11_cross_degree_order_free.
+
+(* ---- both groups = the whole node set: the single-network measures
+        (definitions of Model/GraphDefs.v, which the C03 check compares with
+        the library inside Coq) ---- *)
+From PV.Model Require GraphDefs.
+From PV.Proofs Require Import WholeSet.
+
+Theorem C11_whole_set_degree n A i : cross_degree A (seq 0 n) i = qcnat (GraphDefs.degree n A i).
+Proof. exact (cross_degree_whole n A i). Qed.
+Print Assumptions C11_whole_set_degree.
+
+Theorem C11_whole_set_triangles n A i : (forall a b, A a b = A b a) -> (forall a, A a a = false) ->
+  ((1 + 1) * triangles_of A (seq 0 n) i
+   = qcnat (GraphDefs.linked_pairs A (GraphDefs.nbrs n A i)))%Qc.
+Proof. exact (triangles_whole n A i). Qed.
+Print Assumptions C11_whole_set_triangles.
+
+Theorem C11_whole_set_local_clustering n A i :
+  (forall a b, A a b = A b a) -> (forall a, A a a = false) ->
+  let k := qcnat (GraphDefs.degree n A i) in
+  let lp := qcnat (GraphDefs.linked_pairs A (GraphDefs.nbrs n A i)) in
+  cross_local_clustering A (seq 0 n) i
+  = if Qc_eq_dec (k * (k - 1))%Qc 0%Qc then 0%Qc else (lp / (k * (k - 1)))%Qc.
+Proof. exact (cross_local_clustering_whole n A i). Qed.
+Print Assumptions C11_whole_set_local_clustering.
